@@ -401,3 +401,15 @@ pub fn quiet_panics() {
 thread_local! {
     pub static IN_CATCH: std::cell::Cell<u32> = const { std::cell::Cell::new(0) };
 }
+
+/// Run `f` on its own thread and wait at most `secs` seconds. On timeout the thread is abandoned (it may be
+/// stuck inside the code under test) and None is returned; `main` leaves through `process::exit`, so abandoned
+/// threads never keep the process alive.
+pub fn deadline<T: Send + 'static>(secs: u64, f: impl FnOnce() -> T + Send + 'static) -> Option<T> {
+    let (tx, rx) = std::sync::mpsc::channel();
+    std::thread::spawn(move || {
+        let r = f();
+        let _ = tx.send(r);
+    });
+    rx.recv_timeout(std::time::Duration::from_secs(secs)).ok()
+}
